@@ -254,22 +254,29 @@ def run(prog):
         res.viol("variables/anchor", "parser/src/cfg/mod.rs", "check_vars_are_not_cyclic not found")
     else:
         res.fn(f)
-        n_cmp = 0
+        n_cmp, n_big = 0, 0
         for b in sorted(f.reachable()):
             c = _cmp_with_const(f, b)
             if c is None:
                 continue
             succs = [s_ for s_ in f.succs(b) if not f.is_cleanup(s_)]
             if any(_reaches_err_return(f, s_, avoid=[o for o in succs if o != s_]) and all(o not in f.reach_from(s_, avoid=[o for o in succs if o != s_]) for o in succs if o != s_) for s_ in succs):
-                n_cmp += 1
-        ok3 = n_cmp >= 3
-        res.inst("variables/size-compared", where=f.loc, bound_tests=n_cmp, ok=ok3)
+                # the limit compared with: a depth (small) or a size (large)
+                from kq.core import const_val as _cv
+                d_ = f.single_def(f.term(b)["d"]["l"])
+                lim = max([_cv(o) or 0 for o in (d_[3]["a"], d_[3]["b"]) if is_const(o)] or [0])
+                if lim >= 10000:
+                    n_big += 1
+                else:
+                    n_cmp += 1
+        ok3 = n_big >= 1
+        res.inst("variables/size-compared", where=f.loc, size_tests=n_big, ok=ok3)
         res.oblige(ok3)
         if not ok3:
             res.viol("variables/size-compared", f.loc,
                      "the variable table check compares the reference-chain length and the nesting of the resolved value with limits, but "
-                     "not its size (%d bound tests, 3 needed): variables that each use the previous one twice double the resolved value at "
-                     "every link, and a 1 kB configuration makes the loader allocate until the process is killed" % n_cmp)
+                     "not its size (%d tests against a size limit): variables that each use the previous one twice double the resolved value at "
+                     "every link, and a 1 kB configuration makes the loader allocate until the process is killed" % n_big)
         # .. and concat, which resolves eagerly while the table is being built, stops at a limit too
         pa = prog.fn_opt(KP + "push_all_atoms")
         okp = False
